@@ -11,17 +11,18 @@ import (
 type vC10Person struct {
 	ptr, name, birth, death, marker string
 	fams, famc                     string
+	nameParts, extra               string // raw lines: below the NAME line / further facts at level 1
 }
 
 func (p vC10Person) text() string {
-	s := "0 @" + p.ptr + "@ INDI\n1 NAME " + p.name + "\n"
+	s := "0 @" + p.ptr + "@ INDI\n1 NAME " + p.name + "\n" + p.nameParts
 	if p.birth != "" {
 		s += "1 BIRT\n2 DATE " + p.birth + "\n"
 	}
 	if p.death != "" {
 		s += "1 DEAT\n2 DATE " + p.death + "\n"
 	}
-	s += "1 NOTE " + p.marker + "\n"
+	s += p.extra + "1 NOTE " + p.marker + "\n"
 	if p.fams != "" {
 		s += "1 FAMS @" + p.fams + "@\n"
 	}
@@ -120,6 +121,8 @@ var vC10Renumber = map[string]string{"I1": "P7", "I2": "P8", "I3": "P9", "F1": "
 //	3 a disjoint family with other pointers   4 a disjoint family that reuses the pointers I1, I2, F1
 //	5 empty document                          6 copy in which one byte of John's given name is symbolic
 //	7 renumbered copy in which one byte of John's given name is symbolic
+//	8 renumbered copy that carries details (name parts, burial date and place, dated occupation) for
+//	  facts that the base document only mentions
 func vC10Right(variant int) vC10Input {
 	r := vC10Base("R")
 	switch variant {
@@ -142,6 +145,12 @@ func vC10Right(variant int) vC10Input {
 			return vC10Rename(o, map[string]string{"I1": "X1", "I2": "X2", "F1": "G1"})
 		}
 		return o
+	case 8:
+		// the copy says more about facts that the base only mentions
+		r.people[0].nameParts = "2 GIVN John\n2 SURN Smith\n"
+		r.people[0].extra = "1 BURI\n2 DATE 4 Jan 1900\n2 PLAC Waverley\n1 OCCU Farmer\n2 DATE 1880\n"
+		r.people[1].extra = "1 RESI\n2 PLAC Sydney\n"
+		return vC10Rename(r, vC10Renumber)
 	case 5:
 		return vC10Input{}
 	case 6, 7:
@@ -210,14 +219,18 @@ func vC10Options(which int) *IndividualNodesCompareOptions {
 	return o
 }
 
-var vC10VariantNames = []string{"identical-copy", "renumbered-copy", "edited-renumbered-copy", "disjoint", "clashing-pointers", "empty-right", "symbolic-name", "symbolic-name-renumbered"}
+var vC10VariantNames = []string{"identical-copy", "renumbered-copy", "edited-renumbered-copy", "disjoint", "clashing-pointers", "empty-right", "symbolic-name", "symbolic-name-renumbered", "detailed-copy"}
 
-// VerifC10_Merge: cs%8 = variant of the right document, cs/8%3 = thresholds (default, strict,
-// lenient), cs/24%2 = left and right swapped.
+// VerifC10_Merge: cs%9 = variant of the right document, cs/9%3 = thresholds (default, strict,
+// lenient), cs/27%2 = left and right swapped.
 func VerifC10_Merge(cs int) {
-	variant := cs % 8
+	variant := cs % 9
 	leftIn, rightIn := vC10Base("L"), vC10Right(variant)
-	if cs/24%2 == 1 {
+	if variant == 8 {
+		leftIn.people[0].extra = "1 BURI\n1 OCCU Farmer\n"
+		leftIn.people[1].extra = "1 RESI\n"
+	}
+	if cs/27%2 == 1 {
 		leftIn, rightIn = rightIn, leftIn
 	}
 	left, err1 := NewDocumentFromString(leftIn.text())
@@ -226,7 +239,7 @@ func VerifC10_Merge(cs int) {
 	leftBefore, rightBefore := left.String(), right.String()
 	VsClassSet(vC10VariantNames[variant])
 
-	merged, err := MergeDocumentsAndIndividuals(left, right, EqualityMergeFunction, vC10Options(cs/8%3))
+	merged, err := MergeDocumentsAndIndividuals(left, right, EqualityMergeFunction, vC10Options(cs/9%3))
 	VsReach("documents-merged")
 	VsAssert("merge-succeeds", err == nil && merged != nil)
 	if err != nil || merged == nil {
